@@ -259,7 +259,27 @@ func stableBase(li *loopInfo, cells map[interface{}]bool, v ssa.Value) bool {
 }
 
 // enterLoopHead handles a cut point. Returns false when the path ends here (back edge).
-func (c *Ctx) enterLoopHead(st *State, fr *Frame, li *loopInfo, pred *ssa.BasicBlock) bool {
+func (c *Ctx) enterLoopHead(st *State, fr *Frame, li *loopInfo, pred *ssa.BasicBlock) (goOn bool) {
+	// a loop clause that can no longer be stated over the code (it names a local the loop no longer has) leaves every
+	// path through this loop undecided - but only those: what the function does before it reaches the loop is still
+	// checked (a required call that comes first, a safety obligation). Without this a change that moves code around a
+	// loop would hide everything else the function's contract says.
+	defer func() {
+		if r := recover(); r != nil {
+			e, ok := r.(evalErr)
+			if !ok {
+				panic(r)
+			}
+			note := fmt.Sprintf("contract error in a clause of loop %d (paths through the loop are not decided): %s", li.ord, e.msg)
+			if !c.loopNotes[note] {
+				if c.loopNotes == nil {
+					c.loopNotes = map[string]bool{}
+				}
+				c.loopNotes[note] = true
+			}
+			goOn = false
+		}
+	}()
 	invs, decs := c.loopClauses(fr, li)
 	pos := token.NoPos
 	for _, in := range li.head.Instrs {
